@@ -6,7 +6,8 @@ from props import c09
 ID = "C13"; MODEL = "life"; IMPL = "life"
 COQ_PROP = "Properties/C13.v"; COQ_DIRS = ["Common", "Life"]
 COQ_MODULE = "Life.Model"; RUN_FN = "run"
-THEOREMS = ["C13_contained", "C13_errors_exact", "C13_ok_only_if_no_uncaught_panic", "C13_globals_released"]
+THEOREMS = ["C13_contained", "C13_errors_exact", "C13_ok_only_if_no_uncaught_panic", "C13_globals_released",
+            "C13_others_as_if_silent_partial"]
 QUICK_N = 2500; THOROUGH_N = 120000
 RULE = ("scripts as for C09 (2..4 scripted modules with handler / start / task / end programs, injected messages) with panic!() placed in "
         "handle_message, at_sim_start (initial and restarts), at_sim_end and in spawned tasks: every (module, callback kind, program, "
